@@ -121,6 +121,31 @@ def _law(g):
     via = g.get("via", "fresh")
     if via == "fresh":
         return cls(E, K, n, g["K_p"])
+    if via == "after-raise":
+        # a fresh object on which calls were made that (may) raise: zero range / python int on the secondary branch ...
+        law = cls(E, K, n, g["K_p"])
+        import warnings
+        with warnings.catch_warnings():
+            warnings.simplefilter("ignore")
+            for meth, arg in (("stress_secondary_branch", 0.0), ("load_secondary_branch", 0.0), ("stress_secondary_branch", int(rm)),
+                              ("load_secondary_branch", int(0.8 * rm)), ("stress", int(rm)), ("load", "x")):
+                try:
+                    getattr(law, meth)(arg)
+                except Exception:  # noqa: BLE001   (whether these raise is not judged; what they leave behind is)
+                    pass
+        return law
+    if via == "sibling-set-K":
+        # ... or whose sibling (the other law class, same material, constructed right after it) had its K' changed
+        from pylife.materiallaws.notch_approximation_law import ExtendedNeuber as EN
+        from pylife.materiallaws.notch_approximation_law_seegerbeste import SeegerBeste as SB
+        law = cls(E, K, n, g["K_p"])
+        sib = (SB if cls is EN else EN)(E, K, n, g["K_p"])
+        sib.K = 2.0 * K
+        try:
+            sib.stress(0.5 * rm)
+        except Exception:  # noqa: BLE001
+            pass
+        return law
     # one parameter at a time, so that a cache keyed on the *other* parameter is not invalidated by accident
     law = cls(E, 2.0 * K, n, g["K_p"]) if via == "set-K" else cls(E, K, n, g["K_p"] + 1.5)
     import warnings
@@ -592,7 +617,7 @@ def run_shard(shard):
         run_gross(shard, acc)
         return acc
     for T in shard["tolerances"]:
-        for branch, via in [(b, v) for b in BRANCHES for v in ("fresh", "set-K", "set-Kp")]:
+        for branch, via in [(b, v) for b in BRANCHES for v in ("fresh", "set-K", "set-Kp", "after-raise", "sibling-set-K")]:
             g = {"law": shard["law"], "mat": shard["mat"], "K_p": shard["K_p"], "factors": shard["factors"], "T": T, "branch": branch, "via": via}
             law = _law(g)
             R = Ref(g)
